@@ -109,7 +109,9 @@ class TaskSet : public TaskSetBase {
     if (DISPENSO_EXPECT(canceled(), false)) {
       return;
     }
+    DISPENSO_VERIF_POINT("tsk.schedule.outstanding.load", this);
     if (outstandingTaskCount_.load(std::memory_order_relaxed) > taskSetLoadFactor_) {
+      DISPENSO_VERIF_POINT("tsk.schedule.inline.body", this);
       f();
     } else {
       pool_.schedule(token_, packageTask(std::forward<F>(f)));
@@ -311,9 +313,11 @@ class ConcurrentTaskSet : public TaskSetBase {
     // 3. Pool global: non-recursive callers inline at the loose poolLoadFactor_
     // After this check, use ForceQueuingTag to skip the redundant check
     // in ThreadPool::schedule.
+    DISPENSO_VERIF_POINT("cts.schedule.outstanding.load", this);
     if (outstandingTaskCount_.load(std::memory_order_relaxed) > taskSetLoadFactor_ &&
         DISPENSO_EXPECT(!canceled(), true) && detail::PerPoolPerThreadInfo::canInlineSchedule()) {
       detail::InlineDepthGuard depthGuard;
+      DISPENSO_VERIF_POINT("cts.schedule.inline.body", this);
       f();
       return;
     }
@@ -328,6 +332,7 @@ class ConcurrentTaskSet : public TaskSetBase {
           return;
         }
         detail::InlineDepthGuard depthGuard;
+        DISPENSO_VERIF_POINT("cts.schedule.inline2.body", this);
         f();
         return;
       }
@@ -451,9 +456,11 @@ class ConcurrentTaskSet : public TaskSetBase {
       bool skipRecheck = false,
       float poolRecursiveLoadFactor = kDefaultPoolRecursiveLoadFactor) {
     ssize_t placedThreshold = std::max(pool_.numThreads() + 1, taskSetLoadFactor_ / 2);
+    DISPENSO_VERIF_POINT("cts.placed.outstanding.load", this);
     if (outstandingTaskCount_.load(std::memory_order_relaxed) > placedThreshold &&
         DISPENSO_EXPECT(!canceled(), true) && detail::PerPoolPerThreadInfo::canInlineSchedule()) {
       detail::InlineDepthGuard depthGuard;
+      DISPENSO_VERIF_POINT("cts.placed.inline.body", this);
       f();
       return;
     }
@@ -468,6 +475,7 @@ class ConcurrentTaskSet : public TaskSetBase {
           return;
         }
         detail::InlineDepthGuard depthGuard;
+        DISPENSO_VERIF_POINT("cts.placed.inline2.body", this);
         f();
         return;
       }
